@@ -152,7 +152,7 @@ func init() {
 	reg(&Prop{ID: "C04", Level: "fault_enumeration",
 		Quick:    Tier{Cases: 4800, PerJob: 300, Seconds: 70},
 		Thorough: Tier{Cases: 400000, PerJob: 5000, Seconds: 1500},
-		Rule: "one case = generated index (0..200 chunks, 1/12 of the cases 250..1050 chunks, sizes <= max, random IDs, arbitrary extra feature flags, SHA512/256 or SHA256 process digest) written with Index.WriteTo; the bytes must parse with the independent caibx parser to the same table (tail marker offsets/sizes included); read back through a fragmenting stream reader, LocalIndexStore, RemoteHTTPIndex+HTTPIndexHandler (also stored through the HTTP client) or S3IndexStore against the in-harness S3 endpoint (read side) it must equal what was written; then EVERY strict prefix (stream, files <= 9000 bytes; 700 evenly spaced prefixes above that) or <= 600 evenly spaced prefixes plus the boundary lengths (stores), two swapped offsets, a chunk enlarged beyond max and a flipped digest flag must each be rejected; 1/10 of the cases re-encode a casync-made fixture byte-identically; sub_evaluations = reads; distinct = distinct tapes; non-trivial = a fault was applied",
+		Rule:     "one case = generated index (0..200 chunks, 1/12 of the cases 250..1050 chunks, sizes <= max, random IDs, arbitrary extra feature flags, SHA512/256 or SHA256 process digest) written with Index.WriteTo; the bytes must parse with the independent caibx parser to the same table (tail marker offsets/sizes included); read back through a fragmenting stream reader, LocalIndexStore, RemoteHTTPIndex+HTTPIndexHandler (also stored through the HTTP client) or S3IndexStore against the in-harness S3 endpoint (read side) it must equal what was written; then EVERY strict prefix (stream, files <= 9000 bytes; 700 evenly spaced prefixes above that) or <= 600 evenly spaced prefixes plus the boundary lengths (stores), two swapped offsets, a chunk enlarged beyond max and a flipped digest flag must each be rejected; 1/10 of the cases re-encode a casync-made fixture byte-identically; sub_evaluations = reads; distinct = distinct tapes; non-trivial = a fault was applied",
 		Assumptions: []string{
 			"the round-trip half is a pure function of the index; it runs here as the fault-free configuration of the same harness (DESIGN.md C04 honest limit)",
 			"the console (stdin/stdout) index store and S3IndexStore.StoreIndex (multipart upload) are not exercised",
@@ -163,7 +163,7 @@ func init() {
 	reg(&Prop{ID: "C19", Level: "fault_enumeration",
 		Quick:    Tier{Cases: 960, PerJob: 60, Seconds: 70},
 		Thorough: Tier{Cases: 96000, PerJob: 1000, Seconds: 1500},
-		Rule: "one case = a valid stream (generated index of 0..59 chunks; a casync-made catar fixture or the archive of a generated tree (xattrs, devices, symlinks, hostile names); a sequence of casync protocol messages) fed to one decoder (IndexFromReader, HTTP index handler PUT, FormatDecoder.Next, ArchiveDecoder.Next, Protocol.ReadMessage) through a reader that injects: truncation at EVERY byte (<= 3000 evenly spaced for long streams), EVERY element/message size field set to each of 0, 1, 8, 15, 16, 17, 24, 31..33, 40, 47, 48, 63..65, size-1, size+1, size+24, 2^20, 2^50, 2^63, 2^64-1, 2^64-16 (and 2^28 occasionally), every type field replaced by another element type, 64 random bit flips, fragmented reads, and I/O errors at a tape-chosen read; oracle: no panic, bytes allocated by the call <= 8*len(input)+128 KiB (runtime.MemStats delta), reader errors surface; sub_evaluations = faulted decodes; distinct = distinct tapes; non-trivial = a fault was applied",
+		Rule:     "one case = a valid stream (generated index of 0..59 chunks; a casync-made catar fixture or the archive of a generated tree (xattrs, devices, symlinks, hostile names); a sequence of casync protocol messages) fed to one decoder (IndexFromReader, HTTP index handler PUT, FormatDecoder.Next, ArchiveDecoder.Next, Protocol.ReadMessage) through a reader that injects: truncation at EVERY byte (<= 3000 evenly spaced for long streams), EVERY element/message size field set to each of 0, 1, 8, 15, 16, 17, 24, 31..33, 40, 47, 48, 63..65, size-1, size+1, size+24, 2^20, 2^50, 2^63, 2^64-1, 2^64-16 (and 2^28 occasionally), every type field replaced by another element type, 64 random bit flips, fragmented reads, and I/O errors at a tape-chosen read; oracle: no panic, bytes allocated by the call <= 8*len(input)+128 KiB (runtime.MemStats delta), reader errors surface; sub_evaluations = faulted decodes; distinct = distinct tapes; non-trivial = a fault was applied",
 		Assumptions: []string{
 			"'all byte strings' is explored only as faulted valid streams (DESIGN.md C19 honest limit)",
 			"size values between 2^31 and 2^47 are not injected: the unpatched decoder would really try to allocate them and take the sandbox down; 2^20/2^28 (really allocated) and >= 2^50 (makeslice panic) bracket that range",
@@ -175,7 +175,7 @@ func init() {
 	reg(&Prop{ID: "C05", Level: "exploration",
 		Quick:    Tier{Cases: 9600, PerJob: 600, Seconds: 70},
 		Thorough: Tier{Cases: 640000, PerJob: 8000, Seconds: 1500},
-		Rule: "one case = random tree created as root on tmpfs (<= 40 entries, depth <= 5: nested and empty directories, files of 0..16 KiB, symlinks to anything, char/block devices, user xattrs, arbitrary uid/gid, permission + set-id/sticky bits, arbitrary ns mtimes, names with any bytes except '/' and NUL) x digest {SHA512/256, SHA256} x one of {catar: Tar -> UnTar; caidx+store: Tar -> pipe -> ChunkStream(n) -> index written and re-read -> UnTarIndex(n) with a slow, reordering store, all under the seeded scheduler; GNU-tar output parsed with archive/tar; tar-stream input built with archive/tar}; oracle: lstat/readlink/xattr/content/mtime snapshot of source and result equal (ranked categories), two packings byte-identical, chunked archive bytes == direct archive bytes; distinct = distinct (path, digest, size bucket, trace hash / tape); every case is non-trivial (a generated tree)",
+		Rule:     "one case = random tree created as root on tmpfs (<= 40 entries, depth <= 5: nested and empty directories, files of 0..16 KiB, symlinks to anything, char/block devices, user xattrs, arbitrary uid/gid, permission + set-id/sticky bits, arbitrary ns mtimes, names with any bytes except '/' and NUL) x digest {SHA512/256, SHA256} x one of {catar: Tar -> UnTar; caidx+store: Tar -> pipe -> ChunkStream(n) -> index written and re-read -> UnTarIndex(n) with a slow, reordering store, all under the seeded scheduler; GNU-tar output parsed with archive/tar; tar-stream input built with archive/tar}; oracle: lstat/readlink/xattr/content/mtime snapshot of source and result equal (ranked categories), two packings byte-identical, chunked archive bytes == direct archive bytes; distinct = distinct (path, digest, size bucket, trace hash / tape); every case is non-trivial (a generated tree)",
 		Assumptions: []string{
 			"metadata fidelity is input coverage rather than simulation (DESIGN.md C05 honest limit); the simulated part is the five-stage chunked pipeline",
 			"GNU tar output: xattrs and sub-second mtimes are not compared (the format cannot carry them); a refusal by archive/tar is not a wrong result",
@@ -187,7 +187,7 @@ func init() {
 	reg(&Prop{ID: "C08", Level: "fault_enumeration",
 		Quick:    Tier{Cases: 480, PerJob: 30, Seconds: 80},
 		Thorough: Tier{Cases: 48000, PerJob: 500, Seconds: 1500},
-		Rule: "part A (local store): one case = workload {ChopFile, Copy, n+1 tasks storing the same chunks at once} x compressed/uncompressed LocalStore x n in 1..4 x blob of 1..12 chunks; a seeded schedule in which every file-system call is a scheduling point is recorded, then re-run with process death at EVERY file-system point k (<= 120 points; 80 sampled otherwise), each in two variants: death exactly at the point, and death during the write that just happened (a file that was created or grew in the last step is cut to a tape-chosen shorter length: torn write); after each death an independent validator (klauspost zstd + SHA512/256, not desync) checks that every file under a chunk name decodes and hashes to its name and everything else is a .tmp-cacnk* file, Prune removes exactly the temporary files, and (every 7th point) a restart completes the work; sub_evaluations = deaths; part B (1/4 of the cases): the real `desync extract` binary (with/without --in-place, with/without --seed, -n 1 or 4, destination absent / old version / other content) is SIGKILLed while GET request k is held by a gated loopback chunk server, for EVERY k: without --in-place the destination must be untouched, with it a re-run must complete correctly without refetching chunks already written; distinct = distinct (workload, n, format, schedule hash, number of points); non-trivial = a death was injected",
+		Rule:     "part A (local store): one case = workload {ChopFile, Copy, n+1 tasks storing the same chunks at once} x compressed/uncompressed LocalStore x n in 1..4 x blob of 1..12 chunks; a seeded schedule in which every file-system call is a scheduling point is recorded, then re-run with process death at EVERY file-system point k (<= 120 points; 80 sampled otherwise), each in two variants: death exactly at the point, and death during the write that just happened (a file that was created or grew in the last step is cut to a tape-chosen shorter length: torn write); after each death an independent validator (klauspost zstd + SHA512/256, not desync) checks that every file under a chunk name decodes and hashes to its name and everything else is a .tmp-cacnk* file, Prune removes exactly the temporary files, and (every 7th point) a restart completes the work; sub_evaluations = deaths; part B (1/4 of the cases): the real `desync extract` binary (with/without --in-place, with/without --seed, -n 1 or 4, destination absent / old version / other content) is SIGKILLed while GET request k is held by a gated loopback chunk server, for EVERY k: without --in-place the destination must be untouched, with it a re-run must complete correctly without refetching chunks already written; distinct = distinct (workload, n, format, schedule hash, number of points); non-trivial = a death was injected",
 		Assumptions: []string{
 			"process death = freezing every task at a file-system point: equivalent to SIGKILL for file contents (page cache survives, no user-space buffering on this path); power loss is out of scope of the property",
 			"a torn write is modelled at whole-file granularity on the file that grew in the last step",
@@ -198,7 +198,7 @@ func init() {
 	reg(&Prop{ID: "C16", Level: "exploration",
 		Quick:    Tier{Cases: 32000, PerJob: 2000, Seconds: 70},
 		Thorough: Tier{Cases: 1600000, PerJob: 20000, Seconds: 1500},
-		Rule: "one case = local store directory of 0..40 objects produced by a simulated history: valid chunks in the store's own format, the same chunk in both formats, chunks of the other format only, invalid chunks (bit flip, truncation, other data, emptied), abandoned .tmp-cacnk* files of killed writers, junk files incl. chunk-like names x store mode {compressed, uncompressed} x one of {Prune with reference set none / all / random subset / subset plus absent ids; Verify; Verify with repair, both with n in 1..6 workers sharing one writer under the seeded scheduler}; oracle: expected file set and expected set of reported ids, classified by an independent zstd+SHA validator; distinct = distinct (op, mode, object bucket, tape, trace hash); every case is non-trivial (a populated store)",
+		Rule:     "one case = local store directory of 0..40 objects produced by a simulated history: valid chunks in the store's own format, the same chunk in both formats, chunks of the other format only, invalid chunks (bit flip, truncation, other data, emptied), abandoned .tmp-cacnk* files of killed writers, junk files incl. chunk-like names x store mode {compressed, uncompressed} x one of {Prune with reference set none / all / random subset / subset plus absent ids; Verify; Verify with repair, both with n in 1..6 workers sharing one writer under the seeded scheduler}; oracle: expected file set and expected set of reported ids, classified by an independent zstd+SHA validator; distinct = distinct (op, mode, object bucket, tape, trace hash); every case is non-trivial (a populated store)",
 		Assumptions: []string{
 			"the name-filter logic is a pure function of the directory listing (DESIGN.md C16 honest limit); the simulated parts are the store history (killed writers, corruption) and the concurrent Verify workers",
 			"SFTP prune is not exercised; S3 prune (1/12 of the cases) runs against a minimal in-harness S3 endpoint",
